@@ -338,7 +338,7 @@ func c08Run(c *Ctx, cs c08Case) {
 			c.Outcome("denied built-in ACCEPTED")
 			return
 		}
-		if !strings.Contains(cr.Err.Error(), cs.Builtin) || !strings.Contains(cr.Err.Error(), "unsafe built-in") {
+		if !strings.Contains(cr.Err.Error(), cs.Builtin) {
 			// rejected, but is it because of the deny-list? (a template that is invalid for another reason proves nothing)
 			c.Violate("C08 denied built-in rejected for another reason (template not probing the deny-list)", fmt.Sprintf("builtin=%s position=%s syntax=%s\nerror: %v\ncode: %s", cs.Builtin, cs.Position, cs.Syntax, cr.Err, code), nil)
 		}
@@ -360,6 +360,11 @@ func c08Run(c *Ctx, cs c08Case) {
 	if q != nil && cr.Err == nil {
 		c.Count("controls_compiled", 1)
 		c.Outcome("control compiles")
+		// run it through the text entry point as well: the next (denied) twin of this profile differs only in its code
+		protect(func() (string, error) {
+			return pkg.ValidateWithConfiguration(prof, c08Data, cs.Debug, nil, Epoch2000, DefaultReportConf())
+		})
+		c.Eval(1)
 	} else {
 		c.Count("controls_rejected", 1)
 		c.Outcome("control rejected: " + cs.Syntax)
